@@ -286,6 +286,11 @@ template <class T> void all_ops (const FrustumChecker<T>& ck, const P6<T>& p, co
         ck.project_point (p, Vec3<T> (v, T (-0.7), T (-5)), t);
         ck.project_point (p, Vec3<T> (T (0.3), v, -tden<T> ()), t);
         for (int k = 0; k < 4; ++k) ck.depth_to_z (p, v, ZP[k + 2][0], ZP[k + 2][1], t);
+        // Z ranges WIDER than INT_MAX (DepthToZ / DepthToZExc take and return long): the pair must still agree bit for bit
+        {
+            static const long ZW[4][2] = {{0, 4294967295L}, {-2147483648L, 2147483647L}, {0, 1L << 40}, {-5, 2147483647L}};
+            for (auto& zw : ZW) ck.depth_to_z (p, v, zw[0], zw[1], t);
+        }
         ck.radii (p, v, T (1), t);
         ck.radii (p, v, tmax<T> (), t);
     }
